@@ -3,7 +3,7 @@ use crate::common::*;
 use sentinel_core::api::EntryBuilder;
 use sentinel_core::base::{ConcurrencyStat, EntryStrongPtr, MetricEvent, ReadStat, TrafficType};
 use sentinel_core::utils::verif_clock;
-use sentinel_core::{flow, isolation, stat};
+use sentinel_core::{flow, isolation, stat, system};
 use std::collections::HashMap;
 use std::sync::Arc;
 
@@ -25,6 +25,8 @@ impl Exec {
         clear_all_rules();
         // one virtual hour per case: the process-global inbound node's window is empty at case start
         verif_clock::enable(T0_NS + case_no * 3_600_000_000_000);
+        sentinel_core::system_metric::verif::set_system_load(0.0);
+        sentinel_core::system_metric::verif::set_cpu_usage(0.0);
         Exec { case_no, entries: HashMap::new() }
     }
     pub fn res(&self, r: &str) -> String {
@@ -88,6 +90,34 @@ impl CaseExec for Exec {
                 let ret = isolation::load_rules_of_resource(&res, rules);
                 let ids: Vec<String> = isolation::get_rules_of_resource(&res).iter().map(|r| r.id.clone()).collect();
                 format!("ret={} rules={}", ret.map(|b| b.to_string()).unwrap_or("err".into()), ids.join(","))
+            }
+            "sys.load" => {
+                let mut rules = Vec::new();
+                for spec in op.list("rules") {
+                    let p: Vec<&str> = spec.split(':').collect();
+                    let metric = match p[1] {
+                        "load" => system::MetricType::Load,
+                        "avgrt" => system::MetricType::AvgRT,
+                        "conc" => system::MetricType::Concurrency,
+                        "qps" => system::MetricType::InboundQPS,
+                        "cpu" => system::MetricType::CpuUsage,
+                        _ => panic!("harness: bad metric"),
+                    };
+                    let strategy = if p[2] == "bbr" { system::AdaptiveStrategy::BBR } else { system::AdaptiveStrategy::NoAdaptive };
+                    rules.push(Arc::new(system::Rule { id: p[0].to_string(), metric_type: metric, strategy, threshold: parse_frac(p[3]) }));
+                }
+                system::load_rules(rules);
+                let ids: Vec<String> = system::get_rules().iter().map(|r| r.id.clone()).collect();
+                format!("rules={}", ids.join(","))
+            }
+            "sys.set" => {
+                if let Some(l) = op.get("load") {
+                    sentinel_core::system_metric::verif::set_system_load(parse_frac(l));
+                }
+                if let Some(c) = op.get("cpu") {
+                    sentinel_core::system_metric::verif::set_cpu_usage(parse_frac(c) as f32);
+                }
+                "ok".into()
             }
             "build" => {
                 let res = self.res(&op.s("res"));
